@@ -10,7 +10,8 @@ import (
 )
 
 type monitors struct {
-	st *core.Stats
+	st    *core.Stats
+	trace bool // replay: print every step
 }
 
 // ---------------------------------------------------------------------------------------------------------------
@@ -267,11 +268,6 @@ func (w *world) invariants(name, dump, probes, opKey string, unordered bool) {
 			if isT && kind == "ta" && ki.sym == "" {
 				if _, num := objmodel.StrKey(ki.str).CanonicalNumericIndex(); num {
 					expHas = own // §10.4.5.2: canonical numeric keys never reach the prototype
-				}
-			}
-			if isT && kind == "dynarr" && ki.sym == "" {
-				if _, err := strconv.Atoi(ki.str); err == nil {
-					expHas = own // documented: every integer-parsable key is an index handled by the DynamicArray
 				}
 			}
 			if has != expHas {
